@@ -16,6 +16,7 @@ model."""
 
 import json
 import os
+import shutil
 import random
 import subprocess
 
@@ -486,6 +487,66 @@ def recreate_correspondence(ctx, stg, exe, seed, nbatches, per_batch):
     return stats, failures
 
 
+def notes_elsewhere(stg):
+    """a note follows its patch when the repository keeps its notes where a short-cut would not
+    look: the stack lives in a LINKED work tree (refs/notes is in the common git directory, not in
+    <git-dir>/worktrees/<name>), or the notes ref exists only in packed-refs"""
+    import subprocess
+    failures = []
+    n = 0
+    for variant in ("linked-worktree", "packed-notes-ref"):
+        with repo.Scratch("c08w") as r:
+            r.init_repo()
+            wt = r.path
+            if variant == "linked-worktree":
+                wt = r.path + ".wt"
+                shutil.rmtree(wt, ignore_errors=True)
+                r.git(["worktree", "add", "-q", "-b", "topic", wt])
+            try:
+                def stg_run(argv):
+                    return subprocess.run([stg] + argv, cwd=wt, env=r.env(), capture_output=True, text=True,
+                                          timeout=60, stdin=subprocess.DEVNULL)
+
+                def git_run(argv):
+                    return subprocess.run(["git"] + argv, cwd=wt, env=r.env(), capture_output=True, text=True,
+                                          timeout=60)
+                branch = "topic" if variant == "linked-worktree" else "main"
+                stg_run(["init"])
+                for nm in ("q1", "q2", "q3"):
+                    stg_run(["new", "-m", "subject %s\n\nbody of %s\n" % (nm, nm), nm])
+                    with open(os.path.join(wt, nm + ".txt"), "w") as f:
+                        f.write(nm + "\n")
+                    git_run(["add", "-A"])
+                    stg_run(["refresh"])
+                for nm in ("q1", "q2", "q3"):
+                    oid = git_run(["rev-parse", "refs/patches/%s/%s" % (branch, nm)]).stdout.strip()
+                    git_run(["notes", "add", "-m", "note for " + nm, oid])
+                if variant == "packed-notes-ref":
+                    git_run(["pack-refs", "--all"])
+                    d = os.path.join(wt, ".git", "refs", "notes")
+                    if os.path.isdir(d) and not os.listdir(d):
+                        os.rmdir(d)
+                for argv in (["sink", "q3"], ["float", "q1"], ["pop", "-a"], ["push", "q2", "q1"],
+                             ["edit", "-m", "subject q2, reworded", "q2"], ["push", "-a"], ["undo"], ["redo"]):
+                    p = stg_run(argv)
+                    n += 1
+                    if p.returncode != 0:
+                        failures.append({"variant": variant, "after": argv, "why": "exit %d: %s" % (p.returncode, p.stderr[-200:])})
+                        break
+                    for nm in ("q1", "q2", "q3"):
+                        oid = git_run(["rev-parse", "--verify", "-q", "refs/patches/%s/%s" % (branch, nm)]).stdout.strip()
+                        note = git_run(["notes", "show", oid])
+                        if note.returncode != 0 or ("note for " + nm) not in note.stdout:
+                            failures.append({"variant": variant, "after": argv, "patch": nm,
+                                             "why": "git note did not follow the patch"})
+                    if failures:
+                        break
+            finally:
+                if wt != r.path:
+                    shutil.rmtree(wt, ignore_errors=True)
+    return n, failures
+
+
 def run(ctx):
     histcheck.run_property(ctx, PROFILES, ORACLES, n_quick=32, n_thorough=500, nsteps=32 if ctx.quick() else 45,
                            own_oracle="c08")
@@ -494,8 +555,9 @@ def run(ctx):
     n, failures = end_to_end(ctx, stg)
     n2, f2 = notes_through_conflict(stg)
     n3, f3 = edit_fields(stg)
-    n += n2 + n3
-    failures += f2 + f3
+    n4, f4 = notes_elsewhere(stg)
+    n += n2 + n3 + n4
+    failures += f2 + f3 + f4
     # the re-creation model (Model/Encoding.v) against the real code
     from . import p_c18
     common.coq_make(["ExtractExport.vo"])
